@@ -153,6 +153,13 @@ fn shape_sweep(sh_idx: usize, quick: bool, shard: &util::Shard, outer: &util::Sh
             match &o {
                 O::Other(x) => rep.violation("C10/unexpected-outcome", format!("{} depth {d} limit {s}: {x}", shape.name), case.clone()),
                 O::Value(v) => {
+                    // every level of these shapes nests one call / thunk / comparison /
+                    // manifestation inside the previous one: depth d cannot fit in fewer than d
+                    // frames (iterative shapes are exempt: tail calls, foldl, flattenDeepArray)
+                    let per_level = shape.class == Class::Finite && !matches!(shape.name, "thunk-chain-foldl" | "flattenDeepArray-nested" | "tailstrict-recursion");
+                    if per_level && d > s + 1 {
+                        rep.violation(format!("C10/limit-not-enforced/{}", shape.name), format!("{} nested {d} deep succeeds under a frame limit of {s}", shape.name), case.clone());
+                    }
                     if shape.class != Class::Finite {
                         rep.violation("C10/non-terminating-program-yields-value", format!("{} depth {d} limit {s}: value {}", shape.name, util::truncate(v, 100)), case.clone());
                     }
@@ -303,6 +310,13 @@ pub fn self_containing() -> Vec<(&'static str, String)> {
 }
 
 pub fn run(ctx: &Ctx) -> i32 {
+    if std::env::var("VERIF_C10_THRESHOLDS").is_ok() {
+        for sh in shapes().iter().filter(|s| s.class == Class::Finite) {
+            let t = |d: usize| (0..400usize).find(|&s| matches!(run_small_stack((sh.make)(d), s, 1024), O::Value(_)));
+            println!("{:32} d=10 -> {:?}  d=30 -> {:?}  d=60 -> {:?}", sh.name, t(10), t(30), t(60));
+        }
+        return 0;
+    }
     let mut total = Report::new();
     let n = shapes().len();
     let cfg = util::ForkCfg { threads: ctx.threads, mem_bytes: 8 << 30, case_timeout_s: 40, died_signature: "C10/native-stack-or-abort".into(), resource_is_violation: false };
